@@ -65,6 +65,17 @@ fn build_config(c: &Value) -> BuildConfig {
             for f in jarr(&p, "remove") {
                 let _ = std::fs::remove_file(dir.join(f.as_str().unwrap()));
             }
+            // links the preprocessor plants in its copy of the app (a vendored directory, a shared cache): "@crate/<rel>" is resolved against
+            // the crate under test, anything else is taken as it is
+            for f in jarr(&p, "symlink") {
+                let f = f.as_array().unwrap();
+                let target = f[1].as_str().unwrap();
+                let target = match target.strip_prefix("@crate/") {
+                    Some(rel) => PathBuf::from(std::env::var("CARGO_MANIFEST_DIR").unwrap()).join(rel),
+                    None => PathBuf::from(target),
+                };
+                let _ = std::os::unix::fs::symlink(target, dir.join(f[0].as_str().unwrap()));
+            }
             if p.get("panic").and_then(Value::as_bool).unwrap_or(false) {
                 panic!("scripted panic inside the app dir preprocessor");
             }
